@@ -1529,3 +1529,11 @@ MA('C09', 'left scalar multiple declares the signed Lipschitz constant', 'odl/so
 M('C12', 'Kaczmarz takes the relaxation parameter by sweep position', 'odl/solvers/iterative/iterative.py',
   "            x.lincomb(1, x, -omega[i], tmp_dom)",
   "            x.lincomb(1, x, -omega[list(rng).index(i)], tmp_dom)", 'C12-R7')
+M('C04', 'repeated scalar additions merge by multiplication', 'odl/solvers/functional/functional.py',
+  """        super(FunctionalScalarSum, self).__init__(
+            left=func,""", """        if isinstance(func, FunctionalScalarSum):
+            scalar = scalar * func.scalar
+            func = func.left
+
+        super(FunctionalScalarSum, self).__init__(
+            left=func,""", 'FunctionalScalarSum.__init__')
